@@ -318,7 +318,7 @@ for col, cname in [("w", "White"), ("b", "Black")]:
     add(f"c01_pawn_attacks_{col}", ["C01", "C06"], "quick",
         f"generate_pawn_attack_targets for {cname}: one entry per own pawn, attack set == its two forward diagonals with no wrap across the a/h files, entries distinct",
         ["generate_pawn_attack_targets"], "fully symbolic Disjoint board; <=8 own pawns, none on rank 1/8", stubs=[NOSPILL], module=MG, unwind=66, est_s=150, native=[])
-    add(f"c01_pawn_targets_{col}", ["C01"], "thorough",
+    add(f"c01_pawn_targets_{col}", ["C01"], "quick",
         f"generate_pawn_move_targets for {cname}: exactly the own pawns with a push available, targets == single push to an empty square plus the double push from the home rank through two empty squares",
         ["generate_pawn_move_targets"], "fully symbolic Disjoint board; <=8 own pawns, none on rank 1/8", stubs=[NOSPILL], module=MG, unwind=66, est_s=400, heavy=True, native=[])
     add(f"c01_expand_{col}", ["C01"], "thorough",
@@ -331,6 +331,9 @@ for col, cname in [("w", "White"), ("b", "Black")]:
         add(f"c01_leaper_{pc}_{col}", ["C01", "C06"], "thorough",
             f"generate_targets_from_precomputed_tables({pc}) for {cname} with uninterpreted tables: entries == {{(sq, table[sq] minus own pieces) : sq holds an own {pc}, set non-empty}}, complete and duplicate-free",
             ["Targets::generate_targets_from_precomputed_tables", "Targets::get_precomputed_targets"], "fully symbolic Disjoint board; <=3 own pieces of the kind; tables symbolic [u64;64] (their contents: m5_*)", stubs=[NOSPILL], module=MG, unwind=66, est_s=400, heavy=True, native=[])
+    add(f"c01_expand4_{col}", ["C01"], "quick",
+        f"expand_piece_targets for {cname}, small shape (<=4 targets): one Standard move per target bit, origin preserved, capture tag == enemy piece on the destination, appended after existing entries, no duplicates",
+        ["expand_piece_targets", "PieceSet::get", "Bitboard::pop_lsb"], "fully symbolic Disjoint board; one symbolic (square, targets) entry with <=4 targets disjoint from own pieces", stubs=[NOSPILL], module=MG, unwind=8, est_s=120, native=[])
     add(f"a1_union_{col}", ["C01", "C06"], "quick",
         f"generate_attack_targets for {cname} with its four builders stubbed: each builder runs once for the requested colour, the attack map is the union of all target sets",
         ["Targets::generate_attack_targets"], "fully symbolic Disjoint board; symbolic builder outputs",
@@ -358,6 +361,14 @@ add("c01_filter_fixed_promo_pair_b", ["C01"], "thorough",
     "remove_invalid_moves on a FIXED position with two capturing promotions onto the same square (black d2xe1, f2xe1; promotion pieces symbolic) and two independent symbolic attack maps: every candidate is tried on the board, each is kept or dropped on its own verdict, order preserved, board restored",
     ["remove_invalid_moves", "PawnPromotionChessMove::apply", "PawnPromotionChessMove::undo"], "position concrete; promotion pieces and both attack maps symbolic",
     stubs=[NOSPILL, ATTSTUB, APPENDSTUB], module=MG, est_s=200, native=["attack_targets"])
+
+add("c01_leaper1_knight_w", ["C01", "C06"], "quick",
+    "generate_targets_from_precomputed_tables(knight) for White, small shape (<=1 knight), uninterpreted tables: entry == (square, table[square] minus own pieces) iff the set is non-empty",
+    ["Targets::generate_targets_from_precomputed_tables", "Targets::get_precomputed_targets"], "fully symbolic Disjoint board; <=1 own knight; tables symbolic [u64;64]", stubs=[NOSPILL], module=MG, unwind=66, est_s=150, native=[])
+add("c01_leaper1_king_b", ["C01", "C06"], "quick",
+    "generate_targets_from_precomputed_tables(king) for Black, small shape (<=1 king), uninterpreted tables: entry == (square, table[square] minus own pieces) iff the set is non-empty",
+    ["Targets::generate_targets_from_precomputed_tables", "Targets::get_precomputed_targets"], "fully symbolic Disjoint board; <=1 own king; tables symbolic [u64;64]", stubs=[NOSPILL], module=MG, unwind=66, est_s=150, native=[])
+
 
 def witness(name, props, module, desc, unwind=8, est_s=60):
     add(name, props, "quick", "vacuity witness: " + desc + "; same set-up as the obligations of this family, ends in assert!(false); must FAIL on exactly that assertion",
